@@ -229,7 +229,7 @@ func (w *world) quorum(t *big.Int) bool {
 
 // relax switches off single clauses of the reference; used only to NAME the root cause of a violation.
 type relax struct {
-	blockID, signer, byAddr, corrupt, chain, height, round, typ, equal bool
+	blockID, signer, byAddr, byIdx, corrupt, chain, height, round, typ, equal bool
 }
 
 // refCommit decides whether the slots (descriptor per validator index, nil = absent) contain correctly
@@ -257,6 +257,12 @@ func (w *world) refCommit(slots []*vdesc, claimed int, h uint64, off int, rx rel
 				continue
 			}
 			power = w.powers[d.addrOf-off]
+		} else if rx.byIdx {
+			// tally by the validator index the vote declares (a field outside the signed bytes) instead of by slot
+			if d.idx < 0 || d.idx >= w.n || d.signer != off+d.idx {
+				continue
+			}
+			power = w.powers[d.idx]
 		} else if !rx.signer && d.signer != off+i {
 			continue
 		}
@@ -302,6 +308,7 @@ func (w *world) cause(slots []*vdesc, claimed int, h uint64, off int) (name stri
 		{"counts-other-block-id", relax{blockID: true}},
 		{"counts-signature-of-other-key", relax{signer: true}},
 		{"tallies-by-address-instead-of-slot", relax{byAddr: true}},
+		{"tallies-by-index-field-instead-of-slot", relax{byIdx: true}},
 		{"counts-corrupted-signature", relax{corrupt: true}},
 		{"counts-signature-for-other-chain", relax{chain: true}},
 		{"counts-other-height", relax{height: true}},
